@@ -36,7 +36,7 @@ pub struct Plan {
     pub real: Vec<&'static str>,
 }
 
-fn verif_root() -> String {
+pub fn verif_root() -> String {
     std::env::var("VERIF_ROOT").unwrap_or_else(|_| {
         let exe = std::env::current_exe().unwrap();
         // <root>/sim/target[-x]/release/simcheck
@@ -47,7 +47,7 @@ fn verif_root() -> String {
     })
 }
 
-fn workers() -> usize {
+pub fn workers() -> usize {
     std::env::var("VERIF_WORKERS")
         .ok()
         .and_then(|s| s.parse().ok())
@@ -465,7 +465,11 @@ pub fn check(property: &str, tier: &str, top: u64) -> i32 {
     let mut crashes: Vec<((&'static str, String), u64, String)> = Vec::new();
     let mut stage_info = Vec::new();
     let n_stages = plan.stages.len() as u32;
+    let only_fine = std::env::var("VERIF_ONLY_FINE").is_ok(); // tuning aid: skip the seam-level stages
     for (si, stage) in plan.stages.iter().enumerate() {
+        if only_fine {
+            break;
+        }
         let runs = ((if tier == "quick" { stage.runs_quick } else { stage.runs_thorough }) as f64 * scale) as u64;
         let runs = runs.max(1);
         // every stage gets an equal share of what is left of the wall-clock cap
@@ -485,11 +489,37 @@ pub fn check(property: &str, tier: &str, top: u64) -> i32 {
         }
     }
 
+    // ---- fine-grained tier (Miri as the scheduler), for the properties that have one
+    let fine_budget = Duration::from_secs(if tier == "quick" { 75 } else { 1200 });
+    let fine_out = if std::env::var("VERIF_NO_FINE").is_ok() { None } else { crate::fine::run_stage(&root, property, tier, top, workers(), &replay_dir, fine_budget) };
+
     // ---- violations
     let findings = load_findings();
     let mut reported: Vec<String> = Vec::new();
     let mut known_lines: Vec<String> = Vec::new();
     let mut harness_errors: Vec<String> = Vec::new();
+    let mut fine_info = serde_json::Value::Null;
+    let mut fine_runs = 0u64;
+    let mut fine_violations = 0u64;
+    if let Some(f) = fine_out {
+        fine_info = f.info;
+        fine_runs = f.runs;
+        harness_errors.extend(f.harness_errors);
+        for (rule, path, detail) in f.violations {
+            fine_violations += 1;
+            if let Some(k) = matches_known(&findings, property, &rule, &detail) {
+                known_lines.push(format!("KNOWN-FINDING: property={property} {} [{rule}]", k.what));
+            } else {
+                println!("VIOLATION property={property} replay={path}");
+                println!("  rule: {rule} (fine-grained tier)");
+                for l in detail.lines().take(12) {
+                    println!("  {l}");
+                }
+                println!("  replay: {root}/check {property} --replay {path}");
+                reported.push(path);
+            }
+        }
+    }
 
     // ---- regression corpus: replay files of earlier failures (fixed defects and corrected
     // false alarms) are re-executed on every check; each has to come out clean
@@ -632,7 +662,7 @@ pub fn check(property: &str, tier: &str, top: u64) -> i32 {
     }
 
     // ---- evidence
-    let evaluations = all.len() as u64;
+    let evaluations = all.len() as u64 + fine_runs;
     let mut distinct: BTreeSet<u64> = BTreeSet::new();
     let mut states: BTreeSet<u64> = BTreeSet::new();
     let mut interleavings: BTreeSet<u64> = BTreeSet::new();
@@ -730,6 +760,8 @@ pub fn check(property: &str, tier: &str, top: u64) -> i32 {
             "samples": samples,
             "exhaustive": false,
             "stages": stage_info,
+            "fine_tier": fine_info,
+            "fine_tier_runs": fine_runs,
             "runs_per_hour": if wall > 0.0 { (evaluations as f64 / wall * 3600.0) as u64 } else { 0 },
             "seeds_per_hour": if wall > 0.0 { (evaluations as f64 / wall * 3600.0) as u64 } else { 0 },
             "simulated_seconds": (vns / 1_000_000_000) as u64,
@@ -742,7 +774,7 @@ pub fn check(property: &str, tier: &str, top: u64) -> i32 {
             "distinct_abstract_states": states.len(),
             "distinct_abstract_states_measure": "hash of (model contents x per-key tier vector) sampled every few operations",
             "inconclusive_runs": inconclusive,
-            "violating_runs": violations_total,
+            "violating_runs": violations_total + fine_violations,
             "known_findings_seen": known_lines.len(),
             "regression_replays_executed": corpus_replayed,
             "workers_killed_from_outside_runs_reexecuted": workers_lost,
@@ -797,6 +829,42 @@ pub fn check(property: &str, tier: &str, top: u64) -> i32 {
 // determinism proof
 
 pub fn determinism(property: &str, runs: u64, _top: u64) -> i32 {
+    if let Some(family) = property.strip_prefix("fine:") {
+        // every seed twice, at two degrees of parallelism (16 and 3 interpreters at a time)
+        let root = verif_root();
+        let collect = |par: usize| -> BTreeMap<u64, String> {
+            let next = std::sync::atomic::AtomicU64::new(0);
+            let out = std::sync::Mutex::new(BTreeMap::new());
+            std::thread::scope(|scope| {
+                for _ in 0..par {
+                    scope.spawn(|| loop {
+                        let i = next.fetch_add(1, std::sync::atomic::Ordering::SeqCst);
+                        if i >= runs {
+                            break;
+                        }
+                        let seed = tape::run_seed(_top, &format!("fine:{family}"), i) >> 16;
+                        let r = crate::fine::run_one(&root, family, seed, 0, seed, 2);
+                        out.lock().unwrap().insert(seed, format!("{} {} {} {:x} {:?} {:?}", r.ok, r.rule, r.yields, r.trace, r.counters, r.harness_error));
+                    });
+                }
+            });
+            out.into_inner().unwrap()
+        };
+        let _ = crate::fine::run_one(&root, family, 0, 0, 0, 1);
+        let a = collect(16);
+        let b = collect(3);
+        let mut bad = 0;
+        for (seed, h) in &a {
+            if b.get(seed) != Some(h) {
+                bad += 1;
+                if bad < 10 {
+                    println!("seed {seed}: {h} vs {:?}", b.get(seed));
+                }
+            }
+        }
+        println!("determinism {property}: {} seeds x 2 executions (16 and 3 interpreters in parallel), {bad} mismatches", a.len());
+        return if bad == 0 && a.len() as u64 == runs { 0 } else { 2 };
+    }
     let exe = std::env::current_exe().unwrap();
     let collect = |nworkers: u64| -> BTreeMap<u64, String> {
         let per = runs.div_ceil(nworkers);
